@@ -117,6 +117,26 @@ func (r Report) ExportWith(src io.Reader) (out string, outNil bool, err error, p
 	return drain(rd, err)
 }
 
+// ExportRaw returns the reader of ExportWithString without draining it.
+func (r Report) ExportRaw(tmpl string) (rd io.Reader, err error, pan *Panic) {
+	defer catch(&pan)
+	switch r.Level {
+	case 0:
+		rd, err = r.B.ExportWithString(tmpl)
+	case 1:
+		rd, err = r.T.ExportWithString(tmpl)
+	default:
+		rd, err = r.E.ExportWithString(tmpl)
+	}
+	return
+}
+
+// Drain reads a held reader to the end.
+func Drain(rd io.Reader) (string, bool) {
+	s, isNil, _, _ := drain(rd, nil)
+	return s, isNil
+}
+
 func drain(rd io.Reader, err error) (string, bool, error, *Panic) {
 	if rd == nil || (reflect.ValueOf(rd).Kind() == reflect.Ptr && reflect.ValueOf(rd).IsNil()) {
 		return "", true, err, nil
